@@ -873,6 +873,7 @@ def judge_call(check, kind, prot_name, val, param_classes, res, muts, replay):
 
 
 SOAP_ENV = 'http://schemas.xmlsoap.org/soap/envelope/'
+SOAP12_ENV = 'http://www.w3.org/2003/05/soap-envelope'
 STATS = {}
 
 
@@ -897,10 +898,11 @@ def oracle_xml(check, tier):
         params += [('ref', n - 1)]
         apps = {}
         hcid = rng.randrange(n)
-        for pname, pcls in (('XmlDocument', XmlDocument), ('Soap11', Soap11)):
+        from spyne.protocol.soap import Soap12
+        for pname, pcls in (('XmlDocument', XmlDocument), ('Soap11', Soap11), ('Soap12', Soap12)):
             for val in (None, 'soft', 'lxml'):
                 apps[(pname, val)] = build_app(classes, params, pcls(validator=val), pcls(),
-                                               header=classes[hcid] if pname == 'Soap11' else None)
+                                               header=classes[hcid] if pname != 'XmlDocument' else None)
         app0, _, in_msg = apps[('Soap11', None)]
         d2 = msg_desc(desc, classes, in_msg)
         reg = registry_of(app0, classes + [in_msg])
@@ -915,23 +917,25 @@ def oracle_xml(check, tier):
             hv = gen_value(rng, d2, ('ref', hcid), rng.randint(1, 2), False, poly=(di % 2 == 1))
             hc = d2['classes'][hcid]
             hdoc, hmuts = enc.document(('ref', hcid), hv, hc['ns'], hc['name'])
-            env = etree.Element('{%s}Envelope' % SOAP_ENV, nsmap={'soap': SOAP_ENV})
-            etree.SubElement(env, '{%s}Header' % SOAP_ENV).append(hdoc)
-            etree.SubElement(env, '{%s}Body' % SOAP_ENV).append(copy.deepcopy(doc))
-            sbody = etree.tostring(env)
+            sbodies = {}
+            for sname, sns in (('Soap11', SOAP_ENV), ('Soap12', SOAP12_ENV)):
+                env = etree.Element('{%s}Envelope' % sns, nsmap={'soap': sns})
+                etree.SubElement(env, '{%s}Header' % sns).append(copy.deepcopy(hdoc))
+                etree.SubElement(env, '{%s}Body' % sns).append(copy.deepcopy(doc))
+                sbodies[sname] = etree.tostring(env)
             for (pname, val), (app, cap, _) in apps.items():
-                b = body if pname == 'XmlDocument' else sbody
+                b = body if pname == 'XmlDocument' else sbodies[pname]
                 res = drive(app, b, cap)
                 check.count(('oracle-xml', pname, val, b))
                 rp = {'kind': 'xml-request', 'protocol': pname, 'validator': val, 'universe': desc, 'params': params,
-                      'body': b.decode(), 'mutations': muts, 'header': hcid if pname == 'Soap11' else None}
+                      'body': b.decode(), 'mutations': muts, 'header': hcid if pname != 'XmlDocument' else None}
                 judge_call(check, 'request', pname, val, pcs, res, muts, rp)
-                if pname == 'Soap11' and res[0] == 'called' and cap.headers:
-                    stat('Soap11 validator=%s: header %s' % (val, 'delivered' if cap.headers[-1] is not None else 'absent'))
+                if pname != 'XmlDocument' and res[0] == 'called' and cap.headers:
+                    stat('%s validator=%s: header %s' % (pname, val, 'delivered' if cap.headers[-1] is not None else 'absent'))
                     bad = native_ok(classes[hcid], cap.headers[-1], 'header', width=val is not None)
                     if bad:
                         check.fail(xml_key('header', pname + '-header', val, hmuts, bad),
-                                   'Soap11(validator=%r): ctx.in_header is %s where %s is declared (at %s)' % (val, bad[2], bad[1], bad[0]), rp)
+                                   '%s(validator=%r): ctx.in_header is %s where %s is declared (at %s)' % (pname, val, bad[2], bad[1], bad[0]), rp)
 
 
 def oracle_xml_retag_all(check, tier):
@@ -1652,19 +1656,52 @@ def run(check):
     tier = check.tier
     lib.ensure_repo_on_path()
     logging.disable(logging.CRITICAL)
-    check.rule = ('generated type universes (2-6 classes, single inheritance, XmlAttribute members, wrapped and nested arrays, '
-                  'max_occurs>1 members, member names shared between classes) plus the request message class of a generated '
-                  'service; documents = an independent schema-directed encoding of a generated value, mutated while encoding '
-                  '(xsi:type set to every class key of interface.classes / unknown names / unknown prefixes, xsi:nil, '
-                  'scalar/object/list shape swaps, attributes named like members, hostile leaf text, dropped / duplicated / '
-                  'shuffled / unknown children); a case is distinct by (protocol, validator, parse_xsi_type, document)')
+    check.rule = (
+        'XML correspondence: generated type universes (2-6 classes, single inheritance, XmlAttribute members, wrapped and nested '
+        'arrays, max_occurs>1 members, member names shared between classes) plus the request message class of a generated service; '
+        'documents = an independent schema-directed encoding of a generated value, mutated while encoding (xsi:type set to every class '
+        'key of interface.classes / unknown names / unknown prefixes / no prefix, xsi:nil in all spellings, scalar/object/list shape '
+        'swaps, attributes named like members on the element and on its children, hostile ASCII leaf text, dropped / duplicated / '
+        'shuffled / unknown children), read with validator None and soft, parse_xsi_type on and off.  Dict correspondence: universes '
+        'over Integer/Integer32/UnsignedInteger8/Integer64/Double/Boolean/Unicode/Date/ByteArray, documents mutated by kind (null, '
+        'booleans, 0/1/other integers, integral / fractional / huge / NaN / infinite floats, numeric and other strings, bytes, lists, '
+        'maps, nested lists, null inside arrays, renamed / bytes / upper-cased keys, positional objects, wrapper keys naming every '
+        'class), passed once over the real wire format, for JSON, YAML and MessagePack, ignore_wrappers on and off, validator soft '
+        'and None.  A case is distinct by (protocol, configuration, entry point, declared type, document).  Oracle: generated services '
+        'with the rich leaf set (also Decimal, DateTime, Time, Duration, Uuid, AnyUri) through ServerBase / WSGI for XmlDocument, '
+        'Soap11, Soap12 (with a SOAP header class), JsonDocument, YamlDocument, MessagePackDocument and HttpRpc (GET), and a fixed '
+        'interface on which every element position is retagged with every registered class key.')
     check.trusted = list(lib.COMMON_TRUSTED) + [
-        'the oracle predicate native_ok (harness/c04.py): isinstance / value-space membership against the declared Spyne classes '
-        '(int where Double or Decimal is declared is accepted as the numeric tower; bool is an int)']
-    check.assumptions = [
-        'leaf readers return values of their own kind (hypothesis of C04_xml_typed; discharged for Integer/Unicode/Boolean by C04_xml_typed_spyne)',
-        'universes are well formed: acyclic single inheritance, distinct flattened member names, single-valued XmlAttribute members',
+        'the oracle predicate native_ok (harness/c04.py): isinstance / value-space membership against the declared Spyne classes; '
+        'an int where Double or Decimal is declared is accepted (numeric tower), a bool is an int; integer width is demanded only '
+        'when a validator is set',
+        'the translators xsitype.py (from_element xsi:type block and _get_xsi_target -> decision table over five tests) and '
+        'dictleaf.py (_ret_bool, _ret_number, integer_from_bytes, the ComplexModelBase branch of _from_dict_value, handler '
+        'registrations): exact-shape recognisers, fail closed',
+        'lxml (parsing, element.nsmap, validator=lxml), json, PyYAML, msgpack: the documents the models start from are what these '
+        'libraries hand to Spyne (printed from the parsed objects), not bytes',
     ]
+    check.assumptions = [
+        'XML leaf readers return values of their own kind (hypothesis of C04_xml_typed / C04_xml_args_typed; discharged for '
+        'Integer/Unicode/Boolean by C04_xml_typed_spyne over the C08 reader models)',
+        'dict-document text readers (from_unicode on a str / bytes) return values of their own kind (hypothesis rd_kind of the dict '
+        'theorems; observed for every string of every generated document: the reader tables of the correspondence)',
+        'universes are well formed: acyclic single inheritance (parents precede children), distinct flattened member names, '
+        'single-valued XmlAttribute members',
+        'modelled leaf set: XML Integer/Unicode/Boolean; dict Integer family with hardware bounds, Double, Boolean, Unicode, Date, '
+        'ByteArray.  Decimal, DateTime, Time, Duration, Uuid, AnyUri, Enum, Any*, File, XmlData, Iterable are decided by the oracle only',
+        'HttpRpc (SimpleDictDocument) and the SOAP envelope / header selection are not modelled in Coq: oracle only (headers go '
+        'through the modelled from_element)',
+        'MessagePack map keys are ASCII; YAML documents contain no native timestamps / sets / binary tags',
+        'validator=lxml: libxml2 schema validation runs first, then the same deserialiser as validator=None (the theorem covers all '
+        'documents, hence those that pass the schema)',
+    ]
+    check.extra['level_note'] = (
+        'proved: typing of XmlDocument.from_element (every document, registry, validator None/soft, parse_xsi_type on/off) and of '
+        'HierDictDocument._from_dict_value/_doc_to_object (JSON, YAML, MessagePack, wrappers on/off, validator soft) over Gallina '
+        'models, instantiated with decision tables regenerated from the source on every run; refusal of unrelated xsi:type values; '
+        'refutations of the pre-repair code and of the MessagePack ByteArray case.  tied by correspondence on every run.  observed '
+        'only: HttpRpc, SOAP envelopes and headers, validator=lxml, the rich leaf types.')
     check.regen(['xsitype', 'dictleaf', 'numtypes'])
     check.check_sources()
     check.prove('Props.C04', THEOREMS)
@@ -1717,8 +1754,8 @@ def replay(check, path):
         val = r.get('validator')
         if kind == 'xml-request':
             from spyne.protocol.xml import XmlDocument
-            from spyne.protocol.soap import Soap11
-            pcls = {'XmlDocument': XmlDocument, 'Soap11': Soap11}[r['protocol']]
+            from spyne.protocol.soap import Soap11, Soap12
+            pcls = {'XmlDocument': XmlDocument, 'Soap11': Soap11, 'Soap12': Soap12}[r['protocol']]
             app, cap, in_msg = build_app(classes, params, pcls(validator=val), pcls(),
                                          header=classes[r['header']] if r.get('header') is not None else None)
             res = drive(app, r['body'].encode(), cap)
